@@ -145,6 +145,36 @@ def run(chk, replay=None):
             model_exprs.append("eval_log [%s] %s" % ("; ".join(log_terms), lib.coq_list([kid[k] for k in keys])))
             inv = {v: s for s, v in vid.items()}
             model_expect.append((o, keys, inv))
+    # ---- leader-side pieces of the chain on a real in-process node (leading / not leading) ----------------
+    ok_h, out_h = lib.harness_build()
+    if not ok_h:
+        chk.violation("harness does not build against /repo", {"broken": "harness build", "log": out_h[-2000:]}, False)
+    else:
+        acases = []
+        for mode in ("leader", "other"):
+            for j, op in enumerate(["async_add", "route_set", "cfgroute_set", "async_del", "route_del", "cfgroute_del"]):
+                acases.append({"mode": mode, "op": op, "key": "a%d" % (j % 3), "value": "v%d-%d" % (j, rng.randrange(1000))})
+        ares = lib.harness_run("ackchain", acases, timeout=180)
+        if any(isinstance(r["answer"], dict) and "Mailbox has closed" in str(r["answer"]) for c, r in zip(acases, ares) if c["mode"] == "leader"):
+            ares = lib.harness_run("ackchain", acases, timeout=180)     # actor start-up race of the in-process node: once more
+        for c, r in zip(acases, ares):
+            n_eval += 1
+            nontrivial.add(("ackchain", c["mode"], c["op"]))
+            acked_ = r["answer"] == "ok"
+            is_add = c["op"].endswith("set") or c["op"].endswith("add")
+            if c["mode"] == "other" and acked_:
+                chk.classify("ack-without-commit:%s" % c["op"],
+                             "%s on a node whose raft core is not the leader (client_write answers ForwardToLeader) was answered Ok "
+                             "although nothing was committed (served: %s)" % (c["op"], r["served"]),
+                             {"suite": "ackchain", "case": c, "impl": r})
+            if c["mode"] == "leader":
+                want = c["value"] if is_add else None
+                if not acked_ or r["served"] != want:
+                    chk.classify("leader-write:%s" % c["op"], "%s on the leading node answered %s and the node then serves %s (expected %s)"
+                                 % (c["op"], r["answer"], r["served"], want), {"suite": "ackchain", "case": c, "impl": r})
+        samples.append({"suite": "ackchain", "case": acases[6], "impl": ares[6]})
+        chk.notes["ackchain"] = [[c["mode"], c["op"], "ok" if r["answer"] == "ok" else "err"] for c, r in zip(acases, ares)]
+
     # ---- no majority: both followers frozen, publish to the (first) leader, kill the leader ------------
     o = nodescen.scenario_no_majority(binary, rng)
     n_eval += 1
